@@ -27,6 +27,12 @@ class Proxy:
     def ok(self, rule, *a, **k):
         return self.run.ok(self.mapping.get(rule, rule), *a, **k)
 
+    def info(self, text):
+        return self.run.info(text)
+
+    def credit(self, rule, n, why):
+        return self.run.credit(self.mapping.get(rule, rule), n, why)
+
 
 class Sub:
     """Run another property's whole check inside this one: every rule name is mapped by `rename`, declarations and
@@ -59,6 +65,12 @@ class Sub:
         pass
 
     def require_instances(self, rule, minimum):
+        pass
+
+    def info(self, text):
+        return self.run.info(text)
+
+    def credit(self, rule, n, why):
         pass
 
 
